@@ -158,7 +158,8 @@ def handleSim (j : Json) : Except String Json := do
 ```
 {"op":"queue","reqs":[[isWrite,owner]…],
  "states":[{"q":[[isWrite,[owner…]]…] (front first), "can":[[isWrite,owner,true|false|null(=exception)]…],
-            "deq":[[owner, index of the next state | -1 (=exception)]…]} …]}     states[0] = the queue just built
+            "deq":[[owner, index of the next state | -1 (=exception, queue unchanged) | -2 (=exception, but the queue
+                    changed)]…]} …]}     states[0] = the queue just built
 ```
 answer `{"k":{"C19":bool},"o":{"C19":null|"clause"},"detail":…}` -/
 
@@ -177,6 +178,8 @@ structure QState where
   q : Queue
   can : List (Bool × Nat × Option Bool)
   deq : List (Nat × Option Nat)
+  /-- owners whose rejected `dequeue` (an exception) nevertheless changed the queue (`-2` in the protocol) -/
+  dirty : List Nat := []
 
 def parseQState (j : Json) : Except String QState := do
   let q ← parseQueue (← j.getObjVal? "q")
@@ -190,7 +193,13 @@ def parseQState (j : Json) : Except String QState := do
       let n ← n.getInt?
       return (← o.getNat?, if n < 0 then none else some n.toNat)
     | _ => throw "bad deq")
-  return { q, can, deq }
+  let dirty ← (← getArr j "deq").filterMapM (fun e => do
+    match ← asArr e with
+    | [o, n] => do
+      let n ← n.getInt?
+      if n == -2 then return some (← o.getNat?) else return none
+    | _ => throw "bad deq")
+  return { q, can, deq, dirty }
 
 def firstBad (l : List (String × Bool)) : Option String := (l.find? (fun x => !x.2)).map (·.1)
 
@@ -206,7 +215,7 @@ def handleQueue (j : Json) : Except String Json := do
   -- K: the model reproduces every observation of the implementation
   let kBuild := canonQ (Queue.build reqs) == q0
   let kCan := states.all (fun st => st.can.all (fun (w, o, r) => st.q.canAccess w o == r))
-  let kDeq := states.all (fun st => st.deq.all (fun (o, nx) =>
+  let kDeq := states.all (fun st => st.dirty.isEmpty) && states.all (fun st => st.deq.all (fun (o, nx) =>
     match st.q.dequeue o, nx with
     | none, none => true
     | some q', some k => (match sArr[k]? with | some st' => canonQ q' == st'.q | none => false)
@@ -225,6 +234,7 @@ def handleQueue (j : Json) : Except String Json := do
         | none, none => true
         | some pend, some k => (match sArr[k]? with | some st' => Spec.abs st'.q == pend | none => false)
         | _, _ => false))),
+    ("a rejected removal removes nothing (the queue is as it was)", states.all (fun st => st.dirty.isEmpty)),
     ("a non-empty queue always has a servable request (removals end with an empty queue)",
       states.all (fun st => st.q.isEmpty || st.deq.any (fun (_, nx) => nx.isSome))),
     ("a granted write after its owner's own read can be removed right after the read",
